@@ -75,6 +75,9 @@ func parseProblem(b []byte) (problem string, libAcc, refAcc, panicked bool) {
 	if p := retain(ser, b); p != "" {
 		return p, true, true, false
 	}
+	if p := retainMsg(msg, want); p != "" {
+		return p, true, true, false
+	}
 	// exported part serialisers
 	if h, err := abi.HeaderToAbiBytes(msg.GetHeader()); err != nil || !bytes.Equal(h, b[0:48]) {
 		return fmt.Sprintf("HeaderToAbiBytes != bytes 0..47 (err=%v)", err), true, true, false
@@ -110,6 +113,36 @@ func retain(ser, want []byte) string {
 	for i := range retained.got {
 		if !bytes.Equal(retained.got[i], retained.want[i]) {
 			return fmt.Sprintf("a serialisation handed out %d calls ago (%d bytes) no longer equals the quote it was made from (first difference at %d): later QuoteToAbiBytes calls overwrote it", len(retained.got)-i, len(retained.want[i]), firstByteDiff(retained.got[i], retained.want[i]))
+		}
+	}
+	return ""
+}
+
+// retainedMsgs does the same for parse results: the message QuoteToProto returned has to stay the decomposition of the
+// input it was parsed from after later calls have parsed other inputs (every field is a slice of that input, not of storage
+// the parser goes on using).
+var retainedMsgs struct {
+	sync.Mutex
+	got, want []*pb.QuoteV4
+	size      int
+}
+
+func retainMsg(msg, want *pb.QuoteV4) string {
+	n := proto.Size(want)
+	if n > 1<<20 {
+		return ""
+	}
+	retainedMsgs.Lock()
+	defer retainedMsgs.Unlock()
+	retainedMsgs.got, retainedMsgs.want = append(retainedMsgs.got, msg), append(retainedMsgs.want, want)
+	retainedMsgs.size += n
+	if len(retainedMsgs.got) < 32 && retainedMsgs.size < 8<<20 {
+		return ""
+	}
+	defer func() { retainedMsgs.got, retainedMsgs.want, retainedMsgs.size = nil, nil, 0 }()
+	for i := range retainedMsgs.got {
+		if !proto.Equal(retainedMsgs.got[i], retainedMsgs.want[i]) {
+			return fmt.Sprintf("a message parsed %d calls ago no longer equals the decomposition of its input: later QuoteToProto calls changed it: %s", len(retainedMsgs.got)-i, firstDiff(retainedMsgs.got[i], retainedMsgs.want[i]))
 		}
 	}
 	return ""
